@@ -118,8 +118,8 @@ LEVEL_TEXT = ('Proved in Lean over the transcribed decoders, for every list of (
               'repeats, empty keys/values), every per-character (query) / per-byte (body) encoding style (literal, + for '
               'space, %XY with free hex case per digit; only % + & ; = must be escaped), every mix of & and ; with empty '
               'segments, blank values with or without =, every split between query string and body, every codec with a '
-              "round-trip law (UTF-8 = core Lean's verified codec, Latin-1 <= 255, US-ASCII <= 127, for bodies also UTF-16-LE "
-              'and UTF-16 with BOM, each with a proved round trip) placed behind any failing '
+              "round-trip law (UTF-8 = core Lean's verified codec, Latin-1 <= 255, US-ASCII <= 127, for bodies also UTF-16-LE, "
+              'UTF-16-BE and UTF-16 with either byte-order mark, each with a proved round trip) placed behind any failing '
               'attempts: the handler is called and each key carries exactly the values sent, query-string values before body '
               'values, in wire order, scalar for one and flat list for several (C03_request_roundtrip, C03_qs_roundtrip, '
               'C03_body_roundtrip, C03_merge); only an exact N,M (1-18 digits) is image-map coordinates (imageMap_iff); the '
@@ -127,12 +127,29 @@ LEVEL_TEXT = ('Proved in Lean over the transcribed decoders, for every list of (
               'key and value of the body, and an accepted body was decoded by one single charset as a whole '
               '(C03_handle_cases, C03_all_or_nothing_*); for EVERY request whose handler is called, malformed or not, the '
               'kwargs are a dict carrying per key exactly the completely decoded query values then body values '
-              '(C03_handler_sees_exactly). Partial: UTF-16-BE, malformed escapes, raw non-UTF-8 query bytes '
-              'and declared-but-wrong charsets are modelled and compared with the real code (exhaustively on small scopes) '
-              'but have no round-trip theorem; query_string_encoding is proved for ASCII-compatible codecs only.')
+              '(C03_handler_sees_exactly). Outside the round trip the code is characterised exactly: both percent decoders '
+              'on every input as scan equations (query: a malformed % stays literally, unquoteImpl_malformed / '
+              '_of_noEscape; body: the % is dropped and int(x,16) leniency applies, bodyUnq_pct); raw non-UTF-8 query bytes '
+              'fall back to Latin-1 and never cause a 404 without an escape (recodeQS_fallback, '
+              'C03_query_without_escape_accepted), path and query are transcoded in one try (recodePathQs_path_fails); '
+              'the first attempted charset that reads everything wins, rightly or not (C03_first_attempt_wins, '
+              'C03_latin1_never_refused, attemptCharsets_spec). Around the parsers: a body is read as a form iff the method '
+              'carries bodies, process_request_body is on, a length is announced (else 411) and the media type is exactly '
+              'the lower-case string (selectProc_default_urlencoded_iff, handleX_eq_handle_body / _nobody, handleX_411_iff, '
+              'handleX_status); multipart fields are promoted and merged behind the query values by the same flat-list law '
+              '(C03_multipart_merge, C03_multipart_handler_sees, fieldAtoms_eq_none: refusal per field, not per body). '
+              'Binding: a handler that takes any keyword is called with exactly request.params incl. late assignments '
+              '(C03_bind_catchall, respond_catchall, lookup_lateKwargs); binding answers 404/400/500 only, 400 only with a '
+              'body key; "never a 5xx from binding" is FALSE for the code (C03_bind_never_5xx_full_false: key self to a '
+              'method, required keyword-only parameter missing, positional-only named by keyword, plain-function handlers) '
+              'and proved for bound handlers without positional-only / required keyword-only parameters '
+              '(C03_bind_never_5xx_partial: test_callable_spec is complete there). Partial: query_string_encoding and '
+              'uri_encoding are proved for ASCII-compatible codecs only; Content-Type header syntax, multipart framing and '
+              'CPython codecs other than UTF-8 are compared, not proved.')
 LEVEL_NOTE = ('Trusted: Lean kernel (axioms propext, Classical.choice, Quot.sound only); the hand model '
-              'lean/CpModel/UrlEnc.lean as validated on every run against cherrypy through a **kwargs handler (whole '
-              'requests), the anchored units, every %X/%XY item and exhaustive small strings; that the hand-written Latin-1/'
+              'lean/CpModel/UrlEnc.lean + UrlEncReq.lean + UrlEncBind.lean as validated on every run against cherrypy through a '
+              '**kwargs handler and handlers with generated signatures (whole requests), the anchored units, the live '
+              'test_callable_spec, CPython itself for call binding, every %X/%XY item and exhaustive small strings; that the hand-written Latin-1/'
               'ASCII/UTF-16 decoders equal CPython codecs (differential only); the harness and its wire-level oracle (cross-checked with urllib.parse.parse_qsl).')
 TRUSTED_BASE = [
     'the Latin-1 / ASCII / UTF-16 decoders are hand-written (round trips proved against hand-written encoders); that '
@@ -140,7 +157,10 @@ TRUSTED_BASE = [
     'CPython semantics of str.split / bytes.split / int(x, 16) / re.fullmatch as transcribed in CpModel/UrlEnc.lean',
 ]
 ASSUMPTIONS = [
-    'PATH_INFO is ASCII and request.uri_encoding is utf-8 (recode_path_qs transcodes path and query together)',
+    'round-trip theorems: PATH_INFO decodes in request.uri_encoding (default utf-8; recode_path_qs transcodes path and '
+    'query together - the other case is modelled, compared and characterised by recodePathQs_path_fails)',
+    'binding: the handler body itself does not raise TypeError; no dispatcher sets handler.kwargs beyond the modelled '
+    'late assignments',
     'charset names are known to CPython (unknown names raise LookupError: property C07)',
     'the WSGI server hands QUERY_STRING over as Latin-1 text (PEP 3333)',
 ]
@@ -151,7 +171,14 @@ RULE = ('multimaps (0-8 pairs over 1-4 keys, texts of 0-20 characters drawn from
         'image-map shapes, exhaustive strings over {a % 2 6 + & = ;} and every %X / %XY item; plus HISTORIES of 2-6 '
         'requests against one long-lived application that re-use each other\'s query strings / bodies / keys (list-valued '
         'query key merged with body values, then the same query again; image map; refused then accepted bytes), every '
-        'request judged stand-alone, with a handler that scribbles over every mutable it receives; a case is non-trivial '
+        'request judged stand-alone, with a handler that scribbles over every mutable it receives; plus the dimensions '
+        'around the parsers (uri_encoding x non-ASCII path, body on GET/DELETE/HEAD/OPTIONS, process_request_body, '
+        'processors overridden, media type spellings, no Content-Type, no Content-Length, empty body, POST without body, '
+        'extra Content-Type parameters, a before_handler tool assigning params: random + an exhaustive grid), '
+        'multipart/form-data fields (repeated names, uploads, per-part charsets, undecodable) next to a query string, '
+        'handlers with generated signatures (positional, positional-only, defaults, *args, keyword-only, **kwargs; method / '
+        'callable object / plain function) reached with path atoms, query keys and body keys aimed at the boundaries of '
+        'the signature; a case is non-trivial '
         'when its wire form contains at least one of % + or a non-ASCII byte, or a repeated key, or parameters on '
         'both sides; distinct = distinct (query bytes, body bytes, configuration)')
 
@@ -2093,7 +2120,7 @@ def _run(ctx):
                 ctx.disagree(case, impl, model, what)
 
 
-def check_dim_grid(ctx):
+def check_dim_grid(ctx, compare=True):
     """Systematic small scope over the dimensions around the parsers: every method x body present x Content-Type
     label x Content-Length present x process_request_body x processors, with one fixed query and body."""
     cases = []
@@ -2125,7 +2152,7 @@ def check_dim_grid(ctx):
                 cases.append({'kind': 'req', 'q': q.hex(), 'qs_enc': None, 'method': 'GET', 'b': None, 'declared': None,
                               'attempt_cfg': None, 'uri_enc': uri, 'path': path.hex(), 'scenario': 'dim-grid-uri',
                               'qfrags': [], 'bfrags': []})
-    check_requests(ctx, cases)
+    check_requests(ctx, cases, compare=compare)
     ctx.extra['exhaustive_dimension_grid'] = ('%d requests: method x body x Content-Type label x Content-Length x '
                                               'process_request_body x processors; uri_encoding x path x query bytes'
                                               % len(cases))
@@ -2137,6 +2164,8 @@ def search(ctx, around=None):
     check_units(ctx, small_strings(5), compare=False)
     if not ctx.oracle_failures:
         check_requests(ctx, list(small_requests(3)), compare=False)
+    if not ctx.oracle_failures:
+        check_dim_grid(ctx, compare=False)
     if not ctx.oracle_failures:
         check_histories(ctx, [gen_history(ctx.rng) for _ in range(3000)], compare=False)
     if not ctx.oracle_failures:
